@@ -267,8 +267,9 @@ def run(ck):
     app = [s for s in addi.body if isinstance(s, ast.Expr) and call_attr(s.value) == 'append']
     ok = len(vloops) == 1 and len(app) == 1 and addi.body.index(vloops[0]) < addi.body.index(app[0])
     if ok:
-        tests = [n for n in vloops[0].body if isinstance(n, ast.If)]
-        ok = len(tests) == 1 and u(tests[0].test) == '{} not in self'.format(u(vloops[0].target)) and isinstance(tests[0].body[-1], ast.Raise) \
+        rz = stmts_with_env(addi, lambda s_: isinstance(s_, ast.Raise), stmts=vloops[0].body)
+        want_atom = ('not', ('atom', ('In', u(vloops[0].target), 'self')))
+        ok = len(rz) == 1 and flow.equivalent(rz[0][1], want_atom)[0] and not any(isinstance(n, (ast.Break, ast.Return)) for n in ast.walk(vloops[0])) \
             and 'tuple({})'.format(atoms_param) in u(app[0]) and 'self.interactions[' in u(app[0])
     ck.ob('MPT-validate', mod.loc(addi), ok, 'add_interaction tests every atom of the new interaction for membership (raise on failure) before the single append',
           key='MPT-validate|every-atom')
